@@ -111,10 +111,12 @@ func DigitsSign10[T Integer](v T) int {
 // to all orders of 10, making it increadibly faster than calculating logaritms
 // or by performing divisions.
 func Digits10[T Integer](v T) int {
-	if v < 0 {
-		v = -v
-	}
 	n := uint64(v)
+	if v < 0 {
+		// Negate after widening; the minimum of a signed type has no
+		// positive counterpart in its own type.
+		n = -n
+	}
 	switch {
 	case n < 10:
 		return 1
